@@ -25,6 +25,11 @@ CLAIMS = {
   "note": "Covers all n ≥ 0 and all multiplicities through the abstract scenarios; does not decide which rows are first beyond comparator orientation + Ascend. Trusted: go/types, engine/absint.",
   "technique": "finite-domain abstract interpretation of counter/limit scenarios + truth-table equivalence of selection predicates",
  },
+ "C14": {
+  "text": "Invariants that make every aggregate history-independent, decided on all paths of each Add/Trigger: scalar aggregates update one field with inverse operations for addition and retraction (same field, same operand, + / −), Average forwards (retraction, value) unchanged to both inner aggregates, the four multiset aggregates (Min, Max, Array, Distinct) keep count bookkeeping and container membership consistent for count-before ∈ {0,1,2,≥3} × {add, retract} with Distinct feeding the wrapped aggregate exactly on 0→1 and 1→0, the key comparators are ascending, and Trigger reads Min()/Max()/Ascend with multiplicity.",
+  "note": "Equality with recomputation for every history follows from these invariants by induction on the history; the induction itself is not mechanised and histories are not enumerated. Float rounding and third-party containers are trusted.",
+  "technique": "finite-domain abstract interpretation of Add over (count-before × operation) + symbolic inverse-update comparison",
+ },
 }
 
 NOT_APPLICABLE = {
